@@ -201,7 +201,9 @@ func (w *World) defsOfUncached(fi *FuncInfo) *funcDefs {
 			if call, ok := s.X.(*ast.CallExpr); ok {
 				if se, ok := call.Fun.(*ast.SelectorExpr); ok {
 					if o := objOf(se.X); o != nil {
-						if _, isVar := o.(*types.Var); isVar {
+						// only locals: a builder or collection made here. What is logged or
+						// recorded through the receiver / a parameter does not become part of it.
+						if _, isVar := o.(*types.Var); isVar && fi.Decl.Body != nil && o.Pos() > fi.Decl.Body.Pos() && o.Pos() < fi.Decl.Body.End() {
 							for _, arg := range call.Args {
 								fd.defs[o] = append(fd.defs[o], arg)
 							}
@@ -413,6 +415,26 @@ func (w *World) atomsInto(fi *FuncInfo, fd *funcDefs, e ast.Expr, a *Atoms, seen
 				// method call: receiver is data too
 				w.atomsInto(fi, fd, se.X, a, seen, depth+1)
 			}
+		}
+		if t := info.TypeOf(x); t != nil && types.Identical(t, types.Universe.Lookup("error").Type()) {
+			// an error is being built: what goes into it is data, but its message text decides nothing
+			sub := newAstAtoms()
+			for _, arg := range x.Args {
+				w.atomsInto(fi, fd, arg, sub, seen, depth+1)
+			}
+			for k := range sub.Fields {
+				a.Fields[k] = true
+			}
+			for k := range sub.Calls {
+				a.Calls[k] = true
+			}
+			for k := range sub.Idents {
+				a.Idents[k] = true
+			}
+			for k := range sub.Ops {
+				a.Ops[k] = true
+			}
+			return
 		}
 		for _, arg := range x.Args {
 			w.atomsInto(fi, fd, arg, a, seen, depth+1)
